@@ -198,6 +198,12 @@ def listDedupBy {α} (l : List α) (same : α → α → Bool) : List α :=
   | [] => []
   | x :: xs => listDedupByGo same x xs
 
+/-- `Iterator::reduce` -/
+def listReduce {α} (l : List α) (f : α → α → α) : Option α :=
+  match l with
+  | [] => none
+  | x :: xs => some (xs.foldl f x)
+
 /-- `itertools::tuple_windows` for pairs: consecutive overlapping pairs -/
 def windows2 {α} : List α → List (T2 α α)
   | a :: b :: rest => T2.mk a b :: windows2 (b :: rest)
